@@ -15,7 +15,7 @@ def mk(tmpl, timeout=600, maxi=3, kbase=0):
     return Case("tmpl-" + tmpl + "-i%d-k%d" % (maxi, kbase), H, SRCS, defs=['-DTEMPLATE="%s"' % tmpl, "-DMAXI=%d" % maxi, "-DOUTMAX=%d" % outmax, "-DKBASE=%d" % kbase], unwind=outmax + 3,
                 unwindset={"hx_write.0": 8, "SCPI_RegSet.0": 4, "SCPI_ErrorPushEx.0": 10, "findCommandHeader.0": 14, "harness.3": 130, "app.0": 8,
                            "strlen.0": 8, "strnpbrk.0": 6, "strnpbrk.1": 6, "UInt64ToStrBaseSign.0": 66, "UInt64ToStrBaseSign.1": 22, "UInt32ToStrBaseSign.0": 34, "UInt32ToStrBaseSign.1": 12},
-                timeout=timeout, functions=FUNCS, optional_witness=([] if "Q" in tmpl else ["responded"]),
+                timeout=timeout, functions=FUNCS, 
                 bounds=dict(message="concrete template %s (Q = query unit, C = command unit), i.e. the text %s" % (
                     tmpl, ";".join(chr(65 + i) + ("?" if c == "Q" else "") for i, c in enumerate(tmpl)) + "\\r\\n"),
                     handlers="symbolic: 0..%d items per query" % maxi + " from " + ("{bool, int32, text, mnemonic, block, streamed block}" if kbase == 0 else "{uint64 hex, uint32 binary, int64, double, float, uint64 octal}") + ", error pushed at any point or not, OK or ERR",
@@ -23,22 +23,29 @@ def mk(tmpl, timeout=600, maxi=3, kbase=0):
 
 
 def cases(tier):
-    maxk = 3 if tier == "quick" else 4
     cs = []
-    for k in range(1, maxk + 1):
+    if tier == "quick":
+        for kb in (0, 6):
+            for t in ("Q", "C"):
+                cs.append(mk(t, 600, 3, kb))
+            for t in ("QQ", "QC", "CQ", "CC"):
+                cs.append(mk(t, 900, 2, kb))
+            for t in ("QCQ", "CQQ"):
+                cs.append(mk(t, 900, 1, kb))
+        return cs
+    for k in range(1, 5):
         for t in itertools.product("QC", repeat=k):
             for kb in (0, 6):
-                cs.append(mk("".join(t), 600 if tier == "quick" else 2400, (3 if k == 1 else 2) if tier == "quick" else 3, kb))
-    if tier != "quick":
-        for t in ("QQQQQ", "QCQCQ", "CQQQC", "QQQQQQ", "QCQQCQ"):
-            cs.append(mk(t, 3000))
+                cs.append(mk("".join(t), 6000, 3 if k <= 2 else 2, kb))
+    for t in ("QQQQQ", "QCQCQ", "CQQQC", "QQQQQQ", "QCQQCQ"):
+        cs.append(mk(t, 6000, 1, 0))
     return cs
 
 
 META = dict(
-    bounds=dict(units="1..3 (quick) / 1..4 and selected 5..6-unit templates (thorough), every query/command mix", items="0..3 per query"),
+    bounds=dict(units="1..2 all and two 3-unit templates (quick) / 1..4 all and selected 5..6-unit templates (thorough)", items="0..3 per unit for 1 unit, 0..2 for 2 units, 0..1 for 3 units in quick"),
     outside=["more than 3 items per unit, other result types (every result function goes through the same delimiter routine)",
-             "command (non-query) handlers that write output (the statement speaks of responding queries)",
+             
              "header texts other than the template's single-letter headers (dispatch is C02's subject)"],
     assumptions=["write callback accepts all bytes"],
     explanation="bounded model checking of real SCPI_Parse framing logic on concrete templates with symbolic handler behaviour",
